@@ -80,8 +80,77 @@ impl EepromRange {
 @*/
 }
 
+impl EepromRange {
+/*@fn file=~/.cargo/registry/src/*/embedded-io-async-0.6.1/src/lib.rs impl="pub trait Write: ErrorType" name=write_all subst="Self::Error=>Error" props=C14 attr="#[verifier::loop_isolation(false)]"
+    requires
+        old(self).wf(),
+        // the window has room for the whole buffer (otherwise write() returns Ok(0) and write_all panics)
+        buf@.len() > 0 ==> old(self).byte_pos + 2 * ((buf@.len() + 1) / 2) <= old(self).end,
+    ensures
+        final(self).wf(), final(self).end == old(self).end,
+        r is Ok ==> forall|i: int| 0 <= i < (buf@.len() + 1) / 2 ==>
+            #[trigger] word_written(old(self).reader.dev(), (old(self).byte_pos / 2 + i) as u16, buf@[2 * i], word_hi(buf@, i)),
+        // (the first word, stated without a quantifier for callers that write a single word)
+        r is Ok && buf@.len() > 0 ==> word_written(old(self).reader.dev(), (old(self).byte_pos / 2) as u16, buf@[0], word_hi(buf@, 0)),
+@entry
+    let ghost buf0 = buf@;
+    let ghost pos0: int = self.byte_pos as int;
+@loop 0
+    invariant
+        self.wf(), self.end == old(self).end, self.reader.dev() == old(self).reader.dev(),
+        buf@.len() <= buf0.len(),
+        buf@.len() == 0 || self.byte_pos as int == pos0,
+        buf@.len() > 0 ==> buf@ == buf0,
+        buf@.len() == 0 && buf0.len() > 0 ==> forall|i: int| 0 <= i < (buf0.len() + 1) / 2 ==>
+            #[trigger] word_written(old(self).reader.dev(), (pos0 / 2 + i) as u16, buf0[2 * i], word_hi(buf0, i)),
+        buf@.len() == 0 && buf0.len() > 0 ==> word_written(old(self).reader.dev(), (pos0 / 2) as u16, buf0[0], word_hi(buf0, 0)),
+    decreases buf@.len()
+@loop_end 0
+    proof {
+        if buf0.len() > 0 && buf@.len() == 0 {
+            assert(word_written(old(self).reader.dev(), (pos0 / 2 + 0) as u16, buf0[2 * 0int], word_hi(buf0, 0)));
+        }
+    }
+@*/
+}
+
+/// the crc crate's table-driven CRC-8 instance STATION_ALIAS_CRC (src/eeprom/mod.rs: poly 0x07, init 0xff): `crc8_etg` is
+/// the bit-by-bit CRC-8 of the property statement; table == bitwise on every 14-byte input is Kani eeprom_alias::alias_crc_table
+pub uninterp spec fn crc8_etg(b: Seq<u8>) -> u8;
+pub struct Crc8 { pub _p: u8 }
+impl Crc8 {
+    #[verifier::external_body]
+    pub fn checksum(&self, bytes: &[u8]) -> (r: u8)
+        ensures r == crc8_etg(bytes@)
+    { unimplemented!() }
+}
+pub const STATION_ALIAS_CRC: Crc8 = Crc8 { _p: 0 };
+/*@const file=src/eeprom/mod.rs name=STATION_ALIAS_POSITION @*/
+/*@const file=src/eeprom/mod.rs name=CHECKSUM_POSITION @*/
+
+#[verifier::external_body]
+pub fn u16_to_le_bytes(v: u16) -> (r: [u8; 2])
+    ensures r[0] as int == v as int % 256, r[1] as int == v as int / 256
+{ v.to_le_bytes() }
+
+/// the first fourteen bytes as they read after the alias has been changed
+pub open spec fn header_after(p: Prov, alias: u16) -> Seq<u8> {
+    Seq::new(14, |i: int| if i == 8 { (alias % 256) as u8 } else if i == 9 { (alias / 256) as u8 } else { p.byte(i) })
+}
+
 impl SubDeviceEeprom {
     pub open spec fn wf(&self) -> bool { self.provider.wf() }
+
+/*@fn file=src/subdevice/eeprom.rs impl="impl<P> SubDeviceEeprom<P>" name=set_station_alias subst="<P>=>@@new_alias.to_le_bytes()=>u16_to_le_bytes(new_alias)@@new_checksum.to_le_bytes()=>u16_to_le_bytes(new_checksum)" props=C14
+    requires self.wf()
+    ensures
+        // Ok => the alias word (word 4) was written with the new alias, and the checksum word (word 7) with the CRC-8 of
+        // the first fourteen bytes as they read after the change (high byte zero)
+        r is Ok ==> word_written(self.provider.dev(), 4, (new_alias % 256) as u8, (new_alias / 256) as u8)
+            && word_written(self.provider.dev(), 7, crc8_etg(header_after(self.provider, new_alias)), 0),
+@before "u16::from(STATION_ALIAS_CRC.checksum(&chunk))"
+    proof { assert(chunk@ =~= header_after(self.provider, new_alias)); }
+@*/
 
 /*@fn file=src/subdevice/eeprom.rs impl="impl<P> SubDeviceEeprom<P>" name=start_at subst="<P>=>" props=C12,C13
     requires self.wf()
